@@ -76,7 +76,8 @@ def explore(run_fn, on_leaf, bound=None, max_leaves=None):
         ctx = Ctx(prefix)
         result = run_fn(ctx)
         if ctx.pos < len(prefix):
-            raise Divergence(f"execution ended before prefix {prefix} was consumed")
+            raise Divergence(f"execution ended before prefix {prefix} was consumed "
+                             f"(consumed {ctx.pos}; result {str(result)[:300]})")
         leaves += 1
         points += len(ctx.trace) - len(prefix) + (1 if prefix else 0)
         total_w += ctx.weight
